@@ -145,12 +145,31 @@ func TestVerifByteStream(t *testing.T) {
 			expectOK, expectStored = false, false
 		case "nameChange":
 			if len(msgs) < 2 {
-				msgs = append(msgs, vMsg{off: off})
+				// the renamed message must not come after the blob is complete (the call may be over by
+				// then): the first message carries only the name, the renamed one the data
+				msgs = []vMsg{{name: name}, {data: wire}}
 			}
 			for j := range msgs {
 				msgs[j].finish = false
 			}
-			msgs[len(msgs)-1].name = strings.Replace(name, "/u", "/v", 1)
+			// the later name differs in the upload id, the instance name, the trailing metadata, the
+			// kind of resource or the digest — whatever differs, the call must fail
+			changed := strings.Replace(name, fmt.Sprintf("uploads/u%d/", i), fmt.Sprintf("uploads/v%d/", i), 1)
+			switch rng.Intn(5) {
+			case 1:
+				changed = "other-instance/" + strings.TrimPrefix(name, inst)
+			case 2:
+				changed = name + "/more-metadata"
+			case 3:
+				changed = strings.Replace(name, hash, vSha(append([]byte("x"), data...)), 1)
+			case 4:
+				if z {
+					changed = fmt.Sprintf("%suploads/u%d/blobs/%s/%d%s", inst, i, hash, size, meta)
+				} else {
+					changed = fmt.Sprintf("%suploads/u%d/compressed-blobs/zstd/%s/%d%s", inst, i, hash, size, meta)
+				}
+			}
+			msgs[len(msgs)-1].name = changed
 			msgs[len(msgs)-1].finish = true
 			expectOK, expectStored = false, false
 		case "nameChangeEmpty":
@@ -160,13 +179,13 @@ func TestVerifByteStream(t *testing.T) {
 			if msgs[len(msgs)-1].finish && pos == len(msgs) {
 				pos = len(msgs) - 1
 				if pos == 0 {
-					// single message: split off the finish into a last, empty message
-					msgs[0].finish = false
-					msgs = append(msgs, vMsg{off: int64(len(wire)), finish: true})
+					// single message: the first message carries only the name, the data follow the
+					// renamed one (which must not come after the blob is complete)
+					msgs = []vMsg{{name: name}, {data: wire, finish: true}}
 					pos = 1
 				}
 			}
-			renamed := vMsg{off: msgs[pos-1].off + int64(len(msgs[pos-1].data)), name: strings.Replace(name, "/u", "/w", 1)}
+			renamed := vMsg{off: msgs[pos-1].off + int64(len(msgs[pos-1].data)), name: strings.Replace(name, fmt.Sprintf("uploads/u%d/", i), fmt.Sprintf("uploads/w%d/", i), 1)}
 			msgs = append(msgs[:pos], append([]vMsg{renamed}, msgs[pos:]...)...)
 			expectOK, expectStored = false, false
 		case "tooMany":
@@ -227,6 +246,14 @@ func TestVerifByteStream(t *testing.T) {
 			}
 			msgs[0].finish = true // finish_write before all the bytes were sent
 			expectOK, expectStored = false, false
+		}
+		if kind != "existing" && kind != "existingPartial" && kind != "badName" && kind != "emptyName" {
+			// tiny blobs repeat: a blob stored by an earlier case turns this one into an upload of an
+			// existing blob (which may return early), not the case it was meant to be
+			if miss, _ := f.vMissing(hash, int64(size)); !miss {
+				rec.Count("collision-skipped")
+				continue
+			}
 		}
 		committed, err, timedOut := f.vWriteMsgs(msgs, closeSend, 3*time.Second)
 		res := vGRPCCode(err)
